@@ -19,6 +19,8 @@ package main
 //	invented   deliveries of a value that no Enqueue had been accepted for (zero = the zero value among them)
 //	ord        a consumer received two values of one producer in the wrong order (per-producer FIFO)
 //	overcap    final AsSlice()/Len() longer than the capacity
+//	spur       Enqueue/Dequeue calls that answered an error although their context was still live after the call
+//	flen/final Len() and len(AsSlice()) at quiescence (the driver re-checks them against the capacity and `left`)
 //	w          the projection of the run onto (at most three) offending values: who enqueued / dequeued
 //	           them, with global sequence numbers taken when the calls returned
 //
@@ -67,6 +69,7 @@ func runFlood(kind string, capacity, np, nc, n int, st *stats) (string, bool) {
 	var seq atomic.Int64
 	var stop atomic.Bool
 	var delivered atomic.Int64
+	var spurious atomic.Int64 // errors answered while the call's context was still live afterwards
 
 	// accSeq[p][k] = sequence number at which Enqueue of item k returned nil (0 = not accepted)
 	accSeq := make([][]int64, np)
@@ -97,6 +100,7 @@ func runFlood(kind string, capacity, np, nc, n int, st *stats) (string, bool) {
 					if pctx.Err() != nil {
 						return
 					}
+					spurious.Add(1)
 				}
 			}
 		}(p)
@@ -114,6 +118,7 @@ func runFlood(kind string, capacity, np, nc, n int, st *stats) (string, bool) {
 					if cctx.Err() != nil {
 						return
 					}
+					spurious.Add(1)
 					continue
 				}
 				got[c] = append(got[c], floodRec{v, seq.Add(1)})
@@ -285,8 +290,11 @@ func runFlood(kind string, capacity, np, nc, n int, st *stats) (string, bool) {
 	if len(wit) > 0 {
 		w = strings.Join(wit, ";")
 	}
-	return fmt.Sprintf("accepted=%d delivered=%d left=%d lost=%d dup=%d invented=%d zero=%d ord=%d overcap=%d ctxenq=%d ops=%d ms=%d wedged=- w=%s",
-		accepted, ndel, left, lost, dup, invented, zero, ord, overcap, ctxenq, seq.Load(), ms, w), false
+	if spurious.Load() > 0 {
+		detections.Add(1)
+	}
+	return fmt.Sprintf("accepted=%d delivered=%d left=%d lost=%d dup=%d invented=%d zero=%d ord=%d overcap=%d ctxenq=%d spur=%d flen=%d final=%d ops=%d ms=%d wedged=- w=%s",
+		accepted, ndel, left, lost, dup, invented, zero, ord, overcap, ctxenq, spurious.Load(), flen, len(final), seq.Load(), ms, w), false
 }
 
 // flood scenarios of the generator: tiny capacities, several producers AND consumers at once
